@@ -140,11 +140,66 @@ fn leaf_extremes(r: &mut StdRng, tmpl: &Message, max_leaves: usize) -> Vec<Messa
     out
 }
 
+/// every numeric / optional leaf in turn at one extreme value (the extreme rotates with the leaf index and `round`),
+/// at most `budget` messages
+fn leaf_extremes_systematic(tmpl: &Message, budget: usize, round: usize) -> Vec<Message> {
+    let base = msg_to_v(tmpl);
+    let mut leaves: Vec<Vec<String>> = vec![];
+    let mut p = vec![];
+    base.walk(&mut p, &mut |path, v| match v {
+        V::Int { .. } | V::F32(_) | V::F64(_) => leaves.push(path.to_vec()),
+        _ => {}
+    });
+    let mut out = vec![];
+    if leaves.is_empty() {
+        return out;
+    }
+    // small messages: every leaf; large ones (MSM7: hundreds of leaves) only a few per round
+    let budget = budget.min((2400 / leaves.len()).max(5));
+    let step = (leaves.len() / budget.max(1)).max(1);
+    let mut li = round % step;
+    let mut n = 0usize;
+    while li < leaves.len() && out.len() < budget {
+        let target = leaves[li].clone();
+        let which = (n + round) % 8;
+        let mut v = base.clone();
+        let mut p = vec![];
+        v.walk_mut(&mut p, &mut |path, node| {
+            if path == target.as_slice() {
+                match node {
+                    V::Int { signed, bits, v } => {
+                        let hi = if *signed { (1i128 << (*bits - 1)) - 1 } else { (1i128 << *bits) - 1 };
+                        let lo = if *signed { -(1i128 << (*bits - 1)) } else { 0 };
+                        *v = [hi, lo, hi - 1, lo + 1, 0, hi / 2 + 1, 1, hi][which].clamp(lo, hi);
+                    }
+                    V::F32(f) => *f = [f32::NEG_INFINITY, f32::INFINITY, f32::MIN, f32::MAX, f32::NAN, -1e30, 1e30, -1e12][which],
+                    V::F64(f) => *f = [f64::NEG_INFINITY, f64::INFINITY, f64::MIN, f64::MAX, f64::NAN, -1e300, 1e300, -1e12][which],
+                    _ => {}
+                }
+            }
+        });
+        if let Ok(m) = v_to_msg(&v) {
+            out.push(m);
+        }
+        li += step;
+        n += 1;
+    }
+    out
+}
+
 /// message stream for the build drivers: normal form, mutated, single-leaf extremes, specials, wire-less
 pub fn message_stream(r: &mut StdRng, nums: &[u16], per_type: usize, nan_ok: bool) -> Vec<Message> {
     let mut out = vec![];
     for &n in nums {
         let mut made = 0;
+        // systematic part: each numeric leaf of one normal-form message at an extreme value
+        for round in 0..(per_type / 8).max(1) {
+            if let Some(t) = template(r, n) {
+                for m in leaf_extremes_systematic(&t, per_type.max(8) * 3, round) {
+                    out.push(m);
+                }
+            }
+        }
         while made < per_type {
             let t = match template(r, n) {
                 Some(t) => t,
@@ -198,6 +253,127 @@ pub fn rec_history(a: &Args, out: &mut Out) {
         for _ in 0..calls {
             let m = &pool[r.gen_range(0..pool.len())];
             record_build(&mut b, m, out, json!({}));
+        }
+    }
+}
+
+// ---------------------------------------------------------------- C12: spec-generated histories
+
+fn bit_length_of(m: &Message) -> Option<(usize, usize)> {
+    // (payload bits written, frame length) when the build succeeds
+    sink::install();
+    let res = guarded(|| MessageBuilder::new().build_message(m).map(|f| f.len()));
+    let evs = sink::take();
+    match res {
+        Ok(Ok(flen)) => evs.iter().filter(|e| e.op == "put" && e.ok).last().map(|e| (e.off + e.len, flen)),
+        _ => None,
+    }
+}
+fn puts_before_failure(m: &Message) -> Option<usize> {
+    sink::install();
+    let res = guarded(|| MessageBuilder::new().build_message(m).map(|f| f.len()));
+    let evs = sink::take();
+    match res {
+        Ok(Err(_)) => Some(evs.iter().filter(|e| e.op == "put" && e.ok).count()),
+        _ => None,
+    }
+}
+
+/// concrete messages for the abstract classes of Gen_Builder (each verified by observation)
+fn class_pool(r: &mut StdRng) -> std::collections::HashMap<&'static str, Vec<Message>> {
+    let mut pool: std::collections::HashMap<&'static str, Vec<Message>> = std::collections::HashMap::new();
+    let mut add = |k: &'static str, m: Message, pool: &mut std::collections::HashMap<&'static str, Vec<Message>>| {
+        let v = pool.entry(k).or_default();
+        if v.len() < 6 {
+            v.push(m);
+        }
+    };
+    // successes, classified by alignment and size
+    for num in [1001u16, 1002, 1003, 1005, 1006, 1013, 1019, 1020, 1029, 1033, 1230, 1071, 1074, 1004, 1012, 1057, 1060, 1077, 1097, 1127] {
+        for _ in 0..6 {
+            if let Some(t) = template(r, num) {
+                if let Some((bits, flen)) = bit_length_of(&t) {
+                    if bits % 8 != 0 && flen < 60 {
+                        add("A", t, &mut pool);
+                    } else if bits % 8 == 0 {
+                        add("B", t, &mut pool);
+                    } else if flen > 300 {
+                        add("C", t, &mut pool);
+                    }
+                }
+            }
+        }
+    }
+    add("D", Message::Empty, &mut pool);
+    add("D", Message::Corrupt, &mut pool);
+    add("D", wireless(r), &mut pool);
+    // failures right after the header / late
+    for m in crate::special::special_messages(r) {
+        if let Some(k) = puts_before_failure(&m) {
+            if (1..=16).contains(&k) {
+                add("E", m, &mut pool);
+            } else if k > 60 {
+                add("F", m, &mut pool);
+            }
+        }
+    }
+    for num in [1009u16, 1010, 1011, 1012] {
+        for _ in 0..8 {
+            if let Some(t) = template(r, num) {
+                let mut v = msg_to_v(&t);
+                // the last satellite gets an unrepresentable frequency channel number: OutOfRange after most of the body
+                if let Some(s) = v.field_mut("satellites").and_then(|s| s.as_seq_mut()) {
+                    if s.len() >= 6 {
+                        let n = s.len();
+                        if let Some(V::Int { v, .. }) = s[n - 1].field_mut("glo_satellite_freq_chan_number") {
+                            *v = -8;
+                        }
+                    } else {
+                        continue;
+                    }
+                }
+                if let Ok(m) = v_to_msg(&v) {
+                    if puts_before_failure(&m).map(|k| k > 40).unwrap_or(false) {
+                        add("F", m, &mut pool);
+                    }
+                }
+            }
+        }
+    }
+    pool
+}
+
+/// replay of TLC-generated histories (Gen_Builder) on real builders, recorded for trace validation
+pub fn replay_histories(a: &Args, out: &mut Out) {
+    let mut r = rng(a.seed(), 120);
+    let pool = class_pool(&mut r);
+    let input = std::fs::read_to_string(a.str("in", "")).expect("vectors");
+    let mut k = 0usize;
+    for line in input.lines() {
+        let v: J = match serde_json::from_str(line) {
+            Ok(v) => v,
+            Err(_) => continue,
+        };
+        let hist: Vec<String> = v["history"].as_array().unwrap().iter().map(|x| x.as_str().unwrap().to_string()).collect();
+        let expect: Vec<String> = v["expect"].as_array().unwrap().iter().map(|x| x.as_str().unwrap().to_string()).collect();
+        out.emit(json!({"ev": "NewBuilder", "history": hist}));
+        let mut b = MessageBuilder::new();
+        for (i, c) in hist.iter().enumerate() {
+            let cands = match pool.get(c.as_str()) {
+                Some(c) if !c.is_empty() => c,
+                _ => {
+                    eprintln!("no concrete message for class {}", c);
+                    std::process::exit(3);
+                }
+            };
+            k += 1;
+            let m = &cands[(k + i * 7) % cands.len()];
+            let res = record_build(&mut b, m, out, json!({"class": c, "expect": expect[i]}));
+            let got = if res.is_some() { "ok" } else { "err" };
+            if got != expect[i] {
+                // the binding of classes to concrete messages is wrong: a tool error, not a verdict
+                out.emit(json!({"ev": "ClassMismatch", "class": c, "expect": expect[i], "got": got}));
+            }
         }
     }
 }
